@@ -628,9 +628,9 @@ def run(ctx):
     # ---- CLI stream
     cases = []
     for kind in ("overlapping", "unsorted", "sorted-near", "sorted-far", "chrom-order", "chrom", "open", "single"):
-        cases += [G.gen_case(rng, region_kind=kind) for _ in range(ctx.n(2, 25))]
-    cases += [G.gen_case(rng, region_kind="none") for _ in range(ctx.n(20, 250))]
-    cases += [G.gen_case(rng, big=not ctx.quick) for _ in range(ctx.n(24, 300))]
+        cases += [G.gen_case(rng, region_kind=kind) for _ in range(ctx.n(3, 25))]
+    cases += [G.gen_case(rng, region_kind="none") for _ in range(ctx.n(40, 250))]
+    cases += [G.gen_case(rng, big=not ctx.quick) for _ in range(ctx.n(40, 300))]
     cases += region_grid_cases(rng, full=not ctx.quick)
     ev = check_cases(ctx, cases, "generated")
     for e in ev[:1] + ev[-2:]:
